@@ -198,6 +198,126 @@ def run_wrapper(case):
     return None
 
 
+def _cmd_fields(cmd):
+    """group-0 elements of an implicit-VR-LE command set: {element: value bytes}"""
+    out, pos = {}, 0
+    while pos + 8 <= len(cmd):
+        g, e, ln = int.from_bytes(cmd[pos:pos + 2], 'little'), int.from_bytes(cmd[pos + 2:pos + 4], 'little'), int.from_bytes(cmd[pos + 4:pos + 8], 'little')
+        out[e] = cmd[pos + 8:pos + 8 + ln]
+        pos += 8 + ln
+    return out
+
+
+def run_slow_reader(case):
+    """a real AE on loopback TCP answering a C-FIND with more data than the socket buffers hold, to a peer that stops
+    reading for several seconds and then reads on, while the application is still producing matches (so the entity is not
+    idle: its own timeout, shorter than the stall, does not apply).  Nothing has failed, so every match and the final
+    response must still arrive, each with its own content (the handler is cursor-style: one Dataset object re-filled for
+    every match)."""
+    import socket
+    import time
+    import pydicom
+    from pynetdicom2 import applicationentity as aem, sopclass as sc, statuses, pdu, userdataitems as ud, dimsemessages as dm, dsutils
+    from . import s3, msgs
+    n, size = case['n'], case['size']
+
+    class Srv(aem.AE):
+        def on_receive_find(self, context, ds):
+            def gen():
+                d = pydicom.Dataset()           # a cursor: the same object, re-filled
+                for j in range(n):
+                    d.PatientID = 'S%d' % j
+                    d.PatientComments = chr(65 + j % 26) * size
+                    time.sleep(case.get('pace', 0))      # the application takes its time over every match
+                    yield d, statuses.C_FIND_PENDING
+            return gen()
+    srv = Srv('SRV', 0, max_pdu_length=0)
+    srv.timeout = case['entity_timeout']
+    srv.add_scp(sc.qr_find_scp)
+    seen, final, why = [], None, None
+    with srv:
+        c = socket.socket()
+        c.setsockopt(socket.SOL_SOCKET, socket.SO_RCVBUF, 16384)
+        c.settimeout(30)
+        c.connect(('127.0.0.1', srv.server_address[1]))
+        rq = pdu.AAssociateRqPDU('SRV', 'SLOW', [
+            pdu.ApplicationContextItem('1.2.840.10008.3.1.1.1'),
+            pdu.PresentationContextItemRQ(1, pdu.AbstractSyntaxSubItem(sc.PATIENT_ROOT_FIND_SOP_CLASS),
+                                          [pdu.TransferSyntaxSubItem('1.2.840.10008.1.2')]),
+            pdu.UserInformationItem([ud.MaximumLengthSubItem(0)])])
+        c.sendall(rq.encode())
+        buf = b''
+        try:
+            while not s3.frames(buf):
+                d = c.recv(65536)
+                if not d:
+                    return 'the entity closed the connection instead of answering the request'
+                buf += d
+            if buf[0] != 2:
+                return 'the entity did not accept the association (PDU type %d)' % buf[0]
+            buf = buf[len(s3.frames(buf)[0][1]):]
+            q = pydicom.Dataset(); q.PatientID = '*'; q.QueryRetrieveLevel = 'PATIENT'
+            m = dm.CFindRQMessage(); m.message_id = 5; m.sop_class_uid = sc.PATIENT_ROOT_FIND_SOP_CLASS; m.priority = 0
+            m.data_set = dsutils.encode(q, True, True)
+            m.set_length()
+            for p in m.encode(1, 0):
+                c.sendall(p.encode())
+            time.sleep(case['stall'])              # ... the peer is busy with something else; then it reads on
+            cmd, data, status = b'', b'', None
+            t0 = time.time()
+            while final is None and why is None and time.time() - t0 < 120:
+                fr = s3.frames(buf)
+                if not fr:
+                    d = c.recv(1 << 20)
+                    if not d:
+                        why = 'the entity closed the connection'
+                        break
+                    buf += d
+                    continue
+                for typ, raw in fr:
+                    buf = buf[len(raw):]
+                    if typ != 4:
+                        why = 'the entity sent a PDU of type %d' % typ
+                        break
+                    for _, mch, body in msgs.parse_pdata(raw):
+                        if mch & 1:
+                            cmd += body
+                            if mch & 2:
+                                f = _cmd_fields(cmd)
+                                status = int.from_bytes(f.get(0x0900, b'\xff\xff'), 'little')
+                                has_ds = int.from_bytes(f.get(0x0800, b'\x01\x01'), 'little') != 0x0101
+                                cmd = b''
+                                if not has_ds:
+                                    if status in (0xFF00, 0xFF01):
+                                        seen.append(None)
+                                    else:
+                                        final = status
+                        else:
+                            data += body
+                            if mch & 2:
+                                ds = dsutils.decode(data, True, True)
+                                seen.append((str(ds.PatientID), str(ds.PatientComments)[:1], len(str(ds.PatientComments))))
+                                data = b''
+                    if final is not None:
+                        break
+        except socket.timeout:
+            why = 'nothing more arrived for 30 s'
+        finally:
+            try:
+                c.sendall(pdu.AAbortPDU(0, 0).encode())
+            except OSError:
+                pass
+            c.close()
+    want = [('S%d' % j, chr(65 + j % 26), size) for j in range(n)]
+    if seen != want or final != 0:
+        k = next((i for i, (a, b) in enumerate(zip(seen, want)) if a != b), min(len(seen), len(want)))
+        return ('a peer that stopped reading for %d s while the application was producing matches (entity timeout %d s) and then read on received %d of %d matches%s, final '
+                'status %s%s' % (case['stall'], case['entity_timeout'], len(seen), n,
+                                 '' if seen == want[:len(seen)] else '; match #%d arrived as %r, the handler yielded %r' % (k, seen[k] if k < len(seen) else None, want[k] if k < len(want) else None),
+                                 'none' if final is None else '%#06x' % final, '; ' + why if why else ''))
+    return None
+
+
 def run_default_entity(case):
     """the provider on an entity that does not override on_receive_find: no matches, exactly one final success"""
     import pydicom
@@ -220,6 +340,8 @@ def run_default_entity(case):
 
 
 def replay(case):
+    if case.get('slow_reader'):
+        return run_slow_reader(case)
     if case.get('default_entity'):
         return run_default_entity(case)
     if case.get('wrapper'):
@@ -272,7 +394,7 @@ def run(chk):
         if r:
             chk.violation('C16:default-entity', r, dc)
     # the convenience wrapper over real loopback TCP
-    for n, mx in ((0, 16384), (1, 0), (5, 256)) if tier == 'quick' else ((0, 16384), (1, 0), (5, 256), (40, 128), (12, 65536)):
+    for n, mx in ((0, 16384), (1, 0), (5, 256), (400, 16384)) if tier == 'quick' else ((0, 16384), (1, 0), (5, 256), (40, 128), (12, 65536), (400, 16384), (3000, 0)):
         wc = {'wrapper': True, 'n': n, 'maxlen': mx}
         try:
             r = run_wrapper(wc)
@@ -286,6 +408,16 @@ def run(chk):
                 chk.count('wrapper:not-reproduced')
             else:
                 chk.violation('C16:wrapper:' + r[:20], r, wc)
+    # a peer that reads slowly (real TCP, more data than the buffers hold)
+    sl = {'slow_reader': True, 'n': 60, 'size': 200000, 'stall': 5, 'entity_timeout': 2, 'pace': 0.1}
+    try:
+        r = run_slow_reader(sl)
+    except Exception as e:  # pylint: disable=broad-except
+        common.raise_for(common.describe_exc(e))
+    chk.case(repr(sl), True, {'slow reader over loopback': True, 'matches': sl['n'], 'bytes each': sl['size']})
+    chk.count('slow-reader')
+    if r and not (common.timing_verdict(r) and (run_slow_reader(sl) is None or run_slow_reader(sl) is None)):
+        chk.violation('C16:slow-reader', r, sl)
     # the user side against a scripted peer: every class of final status
     sseed = 0
     for variant in ('find', 'mwl'):
